@@ -10,6 +10,7 @@ import (
 
 	"github.com/gobuffalo/plush/v5"
 	"github.com/gobuffalo/plush/v5/helpers/hctx"
+	"github.com/gobuffalo/plush/v5/helpers/helptest"
 
 	"verifharness/internal/core"
 )
@@ -508,6 +509,41 @@ func c12Call(b *core.B, s c12Sig, argIdx []int, hasBlock bool, method string) {
 	}
 }
 
+// c12ForeignContext: the helper context carries the call's block whatever implementation of
+// hctx.Context the template is rendered with.
+func c12ForeignContext(b *core.B) {
+	for _, t := range []string{"<%= blk() { %>B<%= 1 %><% } %>", "<%= blk() { %>x<% } %>|<%= blk() { %>y<% } %>", "<%= blkI() { %>I<% } %>", "<%= for (v) in xs { %><%= blk() { %><%= v %><% } %><% } %>"} {
+		if !b.Begin("foreign context: " + t) {
+			continue
+		}
+		b.NonTrivialStr("foreign", t)
+		b.Count("helper-context-with-foreign-context")
+		var out string
+		var err error
+		pan := core.Guard(func() {
+			fc := helptest.NewContext()
+			fc.Set("xs", []int{1, 2})
+			fc.Set("blk", func(h plush.HelperContext) (template.HTML, error) {
+				s, err := h.Block()
+				return template.HTML(s), err
+			})
+			fc.Set("blkI", func(h hctx.HelperContext) (template.HTML, error) {
+				s, err := h.Block()
+				return template.HTML(s), err
+			})
+			out, err = plush.Render(t, fc)
+		})
+		if pan != nil {
+			b.Violate(pan.Sig(), pan.Value)
+			continue
+		}
+		want := map[string]string{"<%= blk() { %>B<%= 1 %><% } %>": "B1", "<%= blk() { %>x<% } %>|<%= blk() { %>y<% } %>": "x|y", "<%= blkI() { %>I<% } %>": "I", "<%= for (v) in xs { %><%= blk() { %><%= v %><% } %><% } %>": "12"}[t]
+		if err != nil || out != want {
+			b.Violate("block-not-delivered|foreign-context", fmt.Sprintf("want %q, got %q %v", want, out, err))
+		}
+	}
+}
+
 func c12KeptContexts(b *core.B) {
 	type kept struct {
 		name     string
@@ -662,6 +698,7 @@ func c12Run(b *core.B) {
 	// without a block must not start carrying the block of a later call
 	if b.Batch == 0 {
 		c12KeptContexts(b)
+	c12ForeignContext(b)
 	}
 	// random: 3 fixed parameters and 4-argument calls
 	r := b.Rng(2)
